@@ -268,6 +268,155 @@ def %(name)s_twin(rest: List[Tuple[int, int]]) -> bool:
     return True
 '''
 
+H3 = r'''
+import numpy as np
+from typing import List, Tuple
+import synapgrad
+from synapgrad import nn
+from crosshair.tracers import NoTracing
+TM = sys.modules["synapgrad.tensor"]
+NF = sys.modules.get("synapgrad.nn.functional") or __import__("importlib").import_module("synapgrad.nn.functional")
+LO = %(lo)d
+HI = %(hi)d
+
+
+def _a(*shape):
+    n = int(np.prod(shape)) if shape else 1
+    return (np.arange(1, n + 1, dtype=np.float32).reshape(shape) + 1.0) / (n + 3.0)      # in (0, 1): log, sqrt, bce are defined
+
+
+_Y = np.array([1, 0], dtype=np.int64)
+# (name, operand shapes, call) - every differentiable operation of the public API, operator and reflected forms
+OPS = [
+    ("add", [(2,), (2,)], lambda t: t[0] + t[1]),
+    ("add broadcast", [(2, 1), (2,)], lambda t: t[0] + t[1]),
+    ("add scalar", [(2,)], lambda t: t[0] + 2.0),
+    ("radd", [(2,)], lambda t: 2.0 + t[0]),
+    ("sub", [(2,), (2,)], lambda t: t[0] - t[1]),
+    ("rsub", [(2,)], lambda t: 2.0 - t[0]),
+    ("mul", [(2,), (2,)], lambda t: t[0] * t[1]),
+    ("rmul", [(2,)], lambda t: 2.0 * t[0]),
+    ("div", [(2,), (2,)], lambda t: t[0] / t[1]),
+    ("rdiv", [(2,)], lambda t: 2.0 / t[0]),
+    ("neg", [(2,)], lambda t: -t[0]),
+    ("matmul", [(2, 2), (2, 2)], lambda t: t[0] @ t[1]),
+    ("addmm", [(2, 2), (2, 2), (2, 2)], lambda t: synapgrad.addmm(t[0], t[1], t[2])),
+    ("pow", [(2,)], lambda t: t[0] ** 2),
+    ("rpow", [(2,)], lambda t: 2.0 ** t[0]),
+    ("exp", [(2,)], lambda t: t[0].exp()),
+    ("log", [(2,)], lambda t: t[0].log()),
+    ("sqrt", [(2,)], lambda t: t[0].sqrt()),
+    ("sum", [(2, 2)], lambda t: t[0].sum()),
+    ("sum dim", [(2, 2)], lambda t: t[0].sum(1)),
+    ("mean", [(2, 2)], lambda t: t[0].mean()),
+    ("mean dim", [(2, 2)], lambda t: t[0].mean(0, True)),
+    ("max", [(2, 2)], lambda t: t[0].max()),
+    ("max dim", [(2, 2)], lambda t: t[0].max(1)),
+    ("min", [(2, 2)], lambda t: t[0].min()),
+    ("min dim", [(2, 2)], lambda t: t[0].min(0)),
+    ("getitem", [(2, 2)], lambda t: t[0][0]),
+    ("getitem list", [(3,)], lambda t: t[0][[0, 2]]),
+    ("concat 2", [(2,), (2,)], lambda t: synapgrad.concat([t[0], t[1]], 0)),
+    ("concat 3", [(2, 1), (2, 2), (2, 1)], lambda t: synapgrad.concat([t[0], t[1], t[2]], 1)),
+    ("concat 1", [(2,)], lambda t: synapgrad.concat([t[0]], 0)),
+    ("stack 2", [(2,), (2,)], lambda t: synapgrad.stack([t[0], t[1]], 0)),
+    ("stack 3", [(2,), (2,), (2,)], lambda t: synapgrad.stack([t[0], t[1], t[2]], 1)),
+    ("unbind", [(2, 2)], lambda t: list(synapgrad.unbind(t[0], 0))),
+    ("clone", [(2,)], lambda t: t[0].clone()),
+    ("squeeze", [(2, 1)], lambda t: t[0].squeeze()),
+    ("unsqueeze", [(2,)], lambda t: t[0].unsqueeze(0)),
+    ("reshape", [(2, 2)], lambda t: t[0].reshape((4,))),
+    ("movedim", [(2, 3)], lambda t: t[0].movedim(0, 1)),
+    ("transpose", [(2, 3)], lambda t: t[0].transpose(0, 1)),
+    ("flatten", [(2, 2)], lambda t: t[0].flatten()),
+    ("unfold", [(3,)], lambda t: t[0].unfold(0, 2, 1)),
+    ("relu", [(2,)], lambda t: NF.relu(t[0])),
+    ("leaky_relu", [(2,)], lambda t: NF.leaky_relu(t[0], 0.1)),
+    ("selu", [(2,)], lambda t: NF.selu(t[0])),
+    ("tanh", [(2,)], lambda t: NF.tanh(t[0])),
+    ("sigmoid", [(2,)], lambda t: NF.sigmoid(t[0])),
+    ("softmax", [(2, 2)], lambda t: NF.softmax(t[0], 1)),
+    ("log_softmax", [(2, 2)], lambda t: NF.log_softmax(t[0], 0)),
+    ("mse_loss", [(2,), (2,)], lambda t: NF.mse_loss(t[0], t[1])),
+    ("MSELoss", [(2,), (2,)], lambda t: nn.MSELoss()(t[0], t[1])),
+    ("bce", [(2,), (2,)], lambda t: NF.binary_cross_entropy(t[0], t[1])),
+    ("bce_with_logits", [(2,), (2,)], lambda t: NF.binary_cross_entropy_with_logits(t[0], t[1])),
+    ("nll_loss", [(2, 2)], lambda t: NF.nll_loss(t[0], synapgrad.Tensor(_Y))),
+    ("cross_entropy", [(2, 2)], lambda t: NF.cross_entropy(t[0], synapgrad.Tensor(_Y))),
+    ("CrossEntropyLoss", [(2, 2)], lambda t: nn.CrossEntropyLoss()(t[0], synapgrad.Tensor(_Y))),
+    ("linear", [(2, 3), (2, 3), (2,)], lambda t: NF.linear(t[0], t[1], t[2])),
+    ("linear no bias", [(2, 3), (2, 3)], lambda t: NF.linear(t[0], t[1])),
+    ("conv1d", [(1, 2, 3), (2, 2, 2), (2,)], lambda t: NF.conv1d(t[0], t[1], t[2])),
+    ("conv1d no bias", [(1, 2, 3), (2, 2, 2)], lambda t: NF.conv1d(t[0], t[1])),
+    ("conv2d", [(1, 1, 3, 3), (2, 1, 2, 2), (2,)], lambda t: NF.conv2d(t[0], t[1], t[2])),
+    ("conv2d no bias", [(1, 1, 3, 3), (2, 1, 2, 2)], lambda t: NF.conv2d(t[0], t[1])),
+    ("max_pool1d", [(1, 1, 4)], lambda t: NF.max_pool1d(t[0], 2)),
+    ("avg_pool1d", [(1, 1, 4)], lambda t: NF.avg_pool1d(t[0], 2)),
+    ("max_pool2d", [(1, 1, 2, 2)], lambda t: NF.max_pool2d(t[0], 2)),
+    ("avg_pool2d", [(1, 1, 2, 2)], lambda t: NF.avg_pool2d(t[0], 2)),
+    ("nn.unfold", [(1, 1, 3, 3)], lambda t: NF.unfold(t[0], 2)),
+    ("nn.fold", [(1, 4, 4)], lambda t: NF.fold(t[0], (3, 3), 2)),
+    ("batch_norm", [(3, 2), (2,), (2,)], lambda t: NF.batch_norm(t[0], t[1], t[2], None, None, True)),
+    ("batch_norm eval", [(3, 2), (2,), (2,)], lambda t: NF.batch_norm(t[0], t[1], t[2], synapgrad.Tensor(np.zeros(2, dtype=np.float32)),
+                                                                  synapgrad.Tensor(np.ones(2, dtype=np.float32)), False)),
+    ("Dropout", [(4,)], lambda t: nn.Dropout(0.5)(t[0])),
+    ("Flatten", [(2, 2)], lambda t: nn.Flatten()(t[0])),
+]
+
+
+def %(name)s(opi: int, f0: bool, f1: bool, f2: bool, grad_on: bool) -> bool:
+    """
+    pre: LO <= opi < HI
+    post: __return__ == True
+    """
+    _PATHS[0] += 1
+    TM.gradient__ = True
+    TM.retain_grads__ = False
+    name, shapes, call = OPS[opi]
+    flags = [f0, f1, f2][:len(shapes)]
+    ts = [synapgrad.Tensor(_a(*sh), requires_grad=bool(fl)) for sh, fl in zip(shapes, flags)]
+    ctx = None
+    if not grad_on:
+        ctx = synapgrad.no_grad()
+        ctx.__enter__()
+    try:
+        # every argument is concrete by now; the strided-view kernels (as_strided) do not run under CrossHair's tracer, which
+        # replaces the dict that NumPy's __array_interface__ protocol insists on
+        with NoTracing():
+            res = call(ts)
+    finally:
+        if ctx is not None:
+            ctx.__exit__(None, None, None)
+    want = bool(grad_on) and any(bool(fl) for fl in flags)
+    ok = True
+    outs = res if isinstance(res, list) else [res]
+    for o in outs:
+        ok = ok and (o.requires_grad == want) and ((o.grad_fn is not None) == want) and (o.is_leaf == (not want)) and o._grad is None
+    o = outs[-1]
+    try:
+        with NoTracing():
+            o.backward(synapgrad.Tensor(np.ones(o.shape, dtype=np.float32)))
+        ok = ok and want
+        for t, fl in zip(ts, flags):
+            ok = ok and ((t._grad is not None) == bool(fl))      # every flagged operand received a gradient, no other did
+    except RuntimeError:
+        ok = ok and not want
+        for x in outs + ts:
+            ok = ok and x._grad is None                           # a refused backward leaves no gradient anywhere
+    TM.gradient__ = True
+    TM.retain_grads__ = False
+    return ok
+
+
+def %(name)s_twin(opi: int, f0: bool, f1: bool, f2: bool, grad_on: bool) -> bool:
+    """
+    pre: LO <= opi < HI
+    post: False
+    """
+    return True
+'''
+N_OPS3 = H3.count('\n    ("')
+
 
 def partitions(tier):
     parts = []
@@ -280,6 +429,9 @@ def partitions(tier):
         args = {3: (0, 1), 4: (0, 1, 2, 3), 12: (0, 1), 5: (0, 1), 6: (0, 1, 2, 3), 7: (0, 1, 2, 3), 8: (0, 1), 9: (0, 1), 10: (0,), 11: (0,)}.get(op, (0,))
         for a in args:
             parts.append(("h2", (op, a), l2))
+    step = 8 if tier == "quick" else 4
+    for lo in range(0, N_OPS3, step):
+        parts.append(("h3", (lo, min(N_OPS3, lo + step)), 0))
     return parts
 
 
@@ -290,8 +442,11 @@ def main(tier, seed):
     names = []
     for i, (kind, first, maxlen) in enumerate(parts):
         name = "%s_p%d" % (kind, i)
-        tmpl = H1 if kind == "h1" else H2
-        src = tmpl % {"first": first, "maxlen": maxlen, "name": name}
+        if kind == "h3":
+            src = H3 % {"lo": first[0], "hi": first[1], "name": name}
+        else:
+            tmpl = H1 if kind == "h1" else H2
+            src = tmpl % {"first": first, "maxlen": maxlen, "name": name}
         if i > 0:
             # keep one copy of the shared helpers per template kind
             pass
@@ -319,13 +474,17 @@ def main(tier, seed):
         "h1": "mode stack: ops 0 construct no_grad, 1 construct retain_grads, 2 enter a constructed one, 3 with no_grad, "
               "4 with retain_grads, 5 exit, 6 exit by exception, 7 probe, 8 re-enter an object that is already entered; first action fixed per partition + <= %d symbolic" % (3 if tier == "quick" else 4),
         "h2": "flags/backward: ops 0-2 contexts, 3 float leaf, 4 int leaf, 5 unary, 6 binary, 7 set requires_grad, "
-              "8 retain_grad, 9 backward, 10 numpy(), 11 detach, 12 float leaf from int data via dtype=, 13 computed leaf flagged afterwards; first action fixed per partition + <= %d symbolic" % (2 if tier == "quick" else 3)})
+              "8 retain_grad, 9 backward, 10 numpy(), 11 detach, 12 float leaf from int data via dtype=, 13 computed leaf flagged afterwards; first action fixed per partition + <= %d symbolic" % (2 if tier == "quick" else 3),
+        "h3": "requires_grad propagation per operation: %d operations of the public API (operator, reflected, functional and layer forms, "
+              "1-3 operands, multi-output unbind), the requires_grad flag of every operand and the gradient mode symbolic; result flag, "
+              "grad_fn, is_leaf, refusal of backward and which operands receive a gradient are asserted" % N_OPS3})
 
 
 FUNCS = {
     "C07": ["synapgrad.tensor:no_grad", "synapgrad.tensor:retain_grads", "synapgrad.tensor:Tensor.__init__",
             "synapgrad.tensor:Tensor.backward", "synapgrad.tensor:Tensor.requires_grad", "synapgrad.tensor:Tensor.retain_grad",
-            "synapgrad.tensor:Tensor.numpy", "synapgrad.tensor:Tensor.detach", "synapgrad.functional:mul", "synapgrad.functional:exp"],
+            "synapgrad.tensor:Tensor.numpy", "synapgrad.tensor:Tensor.detach", "synapgrad.functional:* (every op: result flag and grad_fn)",
+            "synapgrad.nn.functional:* (every op: result flag and grad_fn)"],
     "C12": ["synapgrad.nn.modules:Module.__setattr__", "synapgrad.nn.modules:Module.register_parameter",
             "synapgrad.nn.modules:Module.register_module", "synapgrad.nn.modules:Module.parameters",
             "synapgrad.nn.modules:Module.submodules", "synapgrad.nn.modules:Module.num_params", "synapgrad.nn.modules:Module.train",
